@@ -78,12 +78,10 @@ Definition PDB_remove_models_except (idxs : list nat) (x : pdb) : pdb * option n
   match x with
   | [] => (x, None)
   | _ =>
-      match idxs with
-      | [] => (x, None)                                   (* idxs.iter().max()? on an empty slice *)
-      | _ => if Nat.leb (List.length x) (fold_right Nat.max 0 idxs) then (x, None)
-             else let kept := map snd (filter (fun im => existsb (Nat.eqb (fst im)) idxs) (enumerate_from 0 x)) in
-                  (kept, Some (List.length x - List.length kept))
-      end
+      (* refused when some index is out of bounds (an empty selection keeps nothing) *)
+      if Nat.leb (List.length x) (fold_right Nat.max 0 idxs) then (x, None)
+      else let kept := map snd (filter (fun im => existsb (Nat.eqb (fst im)) idxs) (enumerate_from 0 x)) in
+           (kept, Some (List.length x - List.length kept))
   end.
 
 (* ---------- joins ---------- *)
